@@ -64,8 +64,8 @@ func (f *FuncCFG) exitBlocks() []*cfg.Block {
 // ---------------------------------------------------------------------------------
 // A2 acknowledge-after-wait
 
-var ruleA2 = &Rule{
-	ID:    "A2",
+var ruleA2old = &Rule{
+	ID:    "A2old",
 	Floor: 9,
 	Doc: "acknowledge after wait: in the ingest driver (the function of writer/controller calling doPush): every doPush result is appended to one promise slice; every request field of model.ParserResponse is handed to a doPush; " +
 		"the only success return (`return nil`) lies after a loop that ranges over that slice, calls Get on each element and leaves the function on a non-nil error; every other return yields a value guarded non-nil (`x != nil`) or the error just tested",
@@ -458,8 +458,8 @@ func isHTTPResponseWriter(t types.Type) bool {
 // ---------------------------------------------------------------------------------
 // A4 batch outcome = INSERT outcome
 
-var ruleA4 = &Rule{
-	ID:    "A4",
+var ruleA4old = &Rule{
+	ID:    "A4old",
 	Floor: 7,
 	Doc: "batch outcome is the INSERT outcome: in the flush routine (the method of writer/service calling IChClient.Do): the error variable assigned from Do reaches the completer closure call on every path from Do to the function exit, unmodified; " +
 		"the completer ranges over a copy of the swapped portion's promise list and calls Done with its own parameter; the block sent is built from the same portion's columns; the portion comes from swapBuffers; " +
@@ -882,4 +882,7 @@ var ruleB1 = &Rule{
 	},
 }
 
-func init() { register(ruleA2, ruleA3, ruleA4, ruleB1) }
+func init() { register(ruleA3, ruleB1) }
+
+var _ = ruleA2old
+var _ = ruleA4old
